@@ -695,15 +695,14 @@ Section Decoder.
       end
     end.
 
-  (* the whole stream.  [allow_large]: accept the large-window form of WBITS. *)
-  Definition decode (allow_large : bool) (prefix stream : list N) : res (list N * info) :=
-    let bs := flat_map (fun b => N_to_bits 8 b) stream in
+  (* the whole stream as bits.  [allow_large]: accept the large-window form of WBITS;
+     [budget]: an upper bound on the number of meta-blocks (and of zero-length commands). *)
+  Definition decode_bits (allow_large : bool) (prefix : list N) (bs : bits) (budget : N) : res (list N * info) :=
     match read_wbits allow_large bs with
     | Err e => Err e
     | Ok ((wbits, large), r) =>
       let i0 := nset (if large then bump PE K_large else PE) K_wbits wbits in
       let s0 := {| d_out := o_init prefix; d_ring := ring_init; d_info := i0; d_bits := r |} in
-      let budget := 8 * N.of_nat (length stream) + 8 in
       match loop_n budget (meta_block large (2 ^ wbits - 16) budget) s0 with
       | Continue _ => Err 19
       | Stop (MbErr e) => Err e
@@ -715,4 +714,8 @@ Section Decoder.
         end
       end
     end.
+
+  (* a stream is a list of bytes; a meta-block takes at least one bit *)
+  Definition decode (allow_large : bool) (prefix stream : list N) : res (list N * info) :=
+    decode_bits allow_large prefix (flat_map (fun b => N_to_bits 8 b) stream) (8 * N.of_nat (length stream) + 8).
 End Decoder.
